@@ -62,4 +62,78 @@ def r4h_iter_take(text, log):
             return text
 
 
-RULES = {"R4h": r4h_iter_take}
+
+def r4j_vec_value_for(text, log):
+    """R4j  by-value iteration over a Vec of `Copy` elements with a destructuring pattern.
+
+        for PAT in V { B }      (V a plain identifier, PAT a parenthesised tuple pattern)
+     ->
+        { let mut vx_nK = 0; while vx_nK < V.len() { let PAT = V[vx_nK]; vx_nK += 1; B } }
+
+    `Vec::into_iter` yields V[0], V[1], .. by value in order; for `Copy` elements `V[i]` is the same value (rustc rejects
+    the rewritten text if the element type is not `Copy`: cannot move out of index). V is not dropped early, which is
+    unobservable for `Copy` elements.  The counter advances before B so `continue` keeps its meaning.  Needed because
+    Verus for-loops support neither tuple patterns nor `continue`.  Side condition: B does not mention V (checked)."""
+    while True:
+        st = sig(lex(text))
+        done = True
+        for i, in_idx, b in _for_loops(st):
+            if st[i + 1].text != "(" or match_close(st, i + 1) != in_idx - 1:
+                continue
+            if b != in_idx + 2 or st[in_idx + 1].kind != "ident":
+                continue
+            v = st[in_idx + 1].text
+            c = match_close(st, b)
+            if any(x.text == v for x in st[b + 1:c]):
+                continue
+            pat = span_text(text, st, i + 1, in_idx)
+            n = _fresh(text, "vx_n")
+            body = text[st[b].end:st[c].start]
+            new = "{ let mut %s = 0; while %s < %s.len() { let %s = %s[%s]; %s += 1; %s} }" % (n, n, v, pat, v, n, n, body)
+            text = text[:st[i].start] + new + text[st[c].end:]
+            log["R4j vec-value-for -> while"] = log.get("R4j vec-value-for -> while", 0) + 1
+            done = False
+            break
+        if done:
+            return text
+
+
+def r7e_entry_or_insert(text, log):
+    """R7e  outline of the HashMap entry API (Verus has no specification for `Entry`):
+
+        *M.entry(K).or_insert(V)    ->    vx_entry_or_insert(&mut M, K, V)
+
+    where M is a postfix chain of identifiers and field accesses.  The unit supplies
+    `fn vx_entry_or_insert<K, V: Copy>(m: &mut HashMap<K, V>, k: K, v: V) -> V { *m.entry(k).or_insert(v) }` as an
+    `external_body` function whose body is that same expression and whose contract (std semantics: present -> map unchanged,
+    the stored value; absent -> inserted, v) is assumed.  K and V are copied verbatim; evaluation order (M, K, V) is kept."""
+    while True:
+        st = sig(lex(text))
+        done = True
+        for i, t in enumerate(st):
+            if t.text != "*" or i + 1 >= len(st) or st[i + 1].kind != "ident":
+                continue
+            if i > 0 and (st[i - 1].kind in ("ident", "num") and st[i - 1].text not in ("return", "in", "as", "if", "else", "match") or st[i - 1].text in (")", "]")):
+                continue
+            j = i + 1
+            while j + 2 < len(st) and st[j].kind == "ident" and st[j + 1].text == "." and st[j + 2].kind == "ident" and st[j + 2].text != "entry":
+                j += 2
+            if not (st[j].kind == "ident" and st[j + 1].text == "." and st[j + 2].text == "entry" and st[j + 3].text == "("):
+                continue
+            kc = match_close(st, j + 3)
+            if [x.text for x in st[kc + 1:kc + 4]] != [".", "or_insert", "("]:
+                continue
+            vc = match_close(st, kc + 3)
+            m_txt = span_text(text, st, i + 1, j + 1)
+            k_txt = span_text(text, st, j + 4, kc)
+            v_txt = span_text(text, st, kc + 4, vc)
+            new = "vx_entry_or_insert(&mut %s, %s, %s)" % (m_txt, k_txt, v_txt)
+            text = text[:t.start] + new + text[st[vc].end:]
+            log["R7e entry-or_insert outline"] = log.get("R7e entry-or_insert outline", 0) + 1
+            done = False
+            break
+        if done:
+            return text
+
+
+RULES = {"R4h": r4h_iter_take, "R4j": r4j_vec_value_for, "R7e": r7e_entry_or_insert}
